@@ -1,5 +1,5 @@
 (* C06 -- Queries relate dimensions exactly as the stored records relate them.
-   Statements only; every proof is `exact <lemma>` from Proofs/JoinProofs{,B,C,D,X,X2,X3,X4}.v.  Model: Model/Join.v over the C12
+   Statements only; every proof is `exact <lemma>` from Proofs/JoinProofs{,B,C,D,X,X2,X3,X4,X5}.v.  Model: Model/Join.v over the C12
    universe model; `jc_current` = the current universe and its spatial families REGENERATED from dimensions.yaml
    (Gen/Universes.v) + the view-of map (band <- physical_filter, checked against the implementation on every run).
 
@@ -22,7 +22,7 @@
 From Coq Require Import String List Bool ZArith NArith Permutation.
 From V Require Import Model.Universe Model.Group Gen.Universes Model.Join Model.JoinCheck
   Proofs.GroupProofs Proofs.JoinProofs Proofs.JoinProofsB Proofs.JoinProofsC Proofs.JoinProofsD
-  Proofs.JoinProofsX Proofs.JoinProofsX2 Proofs.JoinProofsX3 Proofs.JoinProofsX4.
+  Proofs.JoinProofsX Proofs.JoinProofsX2 Proofs.JoinProofsX3 Proofs.JoinProofsX4 Proofs.JoinProofsX5.
 Import ListNotations.
 Open Scope string_scope.
 Open Scope list_scope.
@@ -273,6 +273,40 @@ Theorem explicit_temporal_join_invalid_current :
 Proof. exact explicit_tjoin_invalid_current_p. Qed.
 Print Assumptions explicit_temporal_join_invalid_current.
 
+(* skip_existing, sharp: `skips_benign` = along the history no skip_existing meets an existing record whose stored region
+   differs from the given one (computed).  Every skip-free history is benign; under benignity the overlap tables stay
+   exact, every query answers with the specification, and the answer is order independent.  The known finding's history
+   is the other case (overlap_exact_refuted_skip / order_independent_refuted_skip). *)
+Theorem skip_free_is_benign : forall c env h s, skip_free h = true -> skips_benign c env h s = true.
+Proof. exact skip_free_benign. Qed.
+Print Assumptions skip_free_is_benign.
+
+Theorem overlap_tables_inv_exact_benign : forall c env h, wf_universe (ju c) = true -> skips_benign c env h st0 = true ->
+  pk_unique c (recs (run_hist c env h st0)) /\ ovl_exact c env (run_hist c env h st0) /\ ovl_spatial_only c (run_hist c env h st0).
+Proof. exact ovl_exact_benign_p. Qed.
+Print Assumptions overlap_tables_inv_exact_benign.
+
+Theorem history_query_correct_benign : forall (ov : N -> N -> bool) (env : N -> list N),
+  (forall x y, ov x y = true -> exists p, In p (env x) /\ In p (env y)) ->
+  forall c h ns,
+  wf_universe (ju c) = true -> uni_okb c = true -> plan_okb c ns = true -> skips_benign c env h st0 = true ->
+  view_closed c (recs (run_hist c env h st0)) ->
+  query c ov (run_hist c env h st0) ns = QOk (spec c ov (recs (run_hist c env h st0)) ns).
+Proof. exact history_query_correct_benign_p. Qed.
+Print Assumptions history_query_correct_benign.
+
+Theorem order_independent_benign : forall (ov : N -> N -> bool) (env : N -> list N),
+  (forall x y, ov x y = true -> exists p, In p (env x) /\ In p (env y)) ->
+  forall c h h' ns,
+  wf_universe (ju c) = true -> uni_okb c = true -> plan_okb c ns = true ->
+  skips_benign c env h st0 = true -> skips_benign c env h' st0 = true ->
+  let s := run_hist c env h st0 in let s' := run_hist c env h' st0 in
+  view_closed c (recs s) -> view_closed c (recs s') -> same_tables (recs s) (recs s') ->
+  exists l l', query c ov s ns = QOk l /\ query c ov s' ns = QOk l' /\ Permutation l l' /\ NoDup l /\ NoDup l'
+               /\ l = spec c ov (recs s) ns /\ l' = spec c ov (recs s') ns.
+Proof. exact order_independent_benign_p. Qed.
+Print Assumptions order_independent_benign.
+
 (* ---- non-vacuity: a reachable state satisfying every hypothesis, with a spatial query that returns a row ---- *)
 Example geometry_witness : forall x y, ov_w x y = true -> exists p, In p (env_w x) /\ In p (env_w y).
 Proof. exact env_w_sound. Qed.
@@ -300,3 +334,9 @@ Proof. exact example_records_p. Qed.
 
 Example example_records_view_closed : view_closed jc_current (recs (run_hist jc_current env_w h_recs st0)).
 Proof. exact example_records_view_closed_p. Qed.
+
+Example example_benign :
+  skip_free (h_base ++ [op_skip_same]) = false
+  /\ skips_benign jc_current env_w (h_base ++ [op_skip_same]) st0 = true
+  /\ skips_benign jc_current env_w (h_base ++ [op_skip]) st0 = false.
+Proof. exact example_benign_p. Qed.
